@@ -134,7 +134,7 @@ def run(ctx):
     entry = [CLS_ID[c.__name__] for c in registry.entry_point_conventions]
     id_cls = {CLS_ID[c.__name__]: c for c in registry.entry_point_conventions}
     ctx.notes.append(f'entry point order read at run time: {[c.__name__ for c in registry.entry_point_conventions]}')
-    synth_specs = {7: 10, 8: 30, 9: 30, 10: 20, 11: None, 12: 0}        # 12: a catch-all fallback of specificity 0
+    synth_specs = {7: 10, 8: 30, 9: 30, 10: 20, 11: None, 12: 0, 13: 35}        # 12: a catch-all fallback of specificity 0; 13: more specific than HIGH
     synth = {i: make_synthetic(i, s) for i, s in synth_specs.items()}
     id_cls.update(synth)
     cls_id = {v: k for k, v in id_cls.items()}
@@ -162,7 +162,7 @@ def run(ctx):
         for label, ds in near_misses(rng, d):
             f = features_of(ds)
             flit = features_literal(f)
-            for reg in (regs if not quick else [(), (12,), rng.choice([(11, 12), (12, 7), (12, 11)])] + rng.sample(regs, 3)):
+            for reg in ((regs + [(8, 13), (13, 8), (9, 13, 7)]) if not quick else [(), (12,), (8, 13), rng.choice([(11, 12), (12, 7), (12, 11), (13, 9)])] + rng.sample(regs, 3)):
                 exprs.append(f'(guess {check_expr(flit)} (conventions {to_coq(list(reg))} {to_coq(entry)}))')
                 plans.append((d, label, ds, f, reg))
     model = coq_eval_sharded(['Model.Registry'], exprs, shard=max(30, len(exprs) // 14), workers=14)
@@ -239,6 +239,34 @@ def run(ctx):
             r = attempt(get_dataset_convention, picked)
         if r[0] == 'ok' and r[1] is not None and r[1].__name__ in ('CFGrid1D', 'CFGrid2D'):
             ctx.report('property', f'a dataset whose latitude and longitude are scalar coordinates is taken for a {r[1].__name__} grid', case)
+    # ---------------- a dataset that is refused (its marker is missing), repaired in place, and asked again: the same object is
+    # now handled by the convention its content calls for
+    for rep_ in range(2):
+        du = gen.ugrid(rng, w=2, h=2, invalid=False)
+        fixed_ = du.ds.copy(deep=True)
+        conv_attr = fixed_.attrs.pop('Conventions', None)
+        saved_attrs = {}
+        for v_ in list(fixed_.variables):
+            # (nothing else may take the broken file for a grid: the CF markers of its coordinates are missing as well)
+            saved_attrs[v_] = dict(fixed_[v_].attrs)
+            fixed_[v_].attrs = {k_: x_ for k_, x_ in fixed_[v_].attrs.items() if k_ not in ('units', 'standard_name', 'axis')}
+        rcase = {'dataset': du.spec['label'], 'history': 'ds.ems refused (no Conventions attribute), attribute put back on the same object, ds.ems again'}
+        ctx.case((du.spec['label'], 'refused then repaired', rep_), True)
+        ctx.count('refused_then_repaired_in_place')
+        with warnings.catch_warnings():
+            warnings.simplefilter('ignore')
+            first_ = attempt(lambda: type(fixed_.ems))
+            if first_[0] == 'ok':
+                ctx.count('refused_then_repaired_in_place:not refused (skipped)')
+                continue
+            fixed_.attrs['Conventions'] = conv_attr
+            for v_, at_ in saved_attrs.items():
+                fixed_[v_].attrs = at_
+            want_ = attempt(get_dataset_convention, fixed_)
+            second_ = attempt(lambda: type(fixed_.ems))
+        if want_[0] == 'ok' and want_[1] is not None and (second_[0] != 'ok' or second_[1] is not want_[1]):
+            ctx.report('property', f'after the dataset was repaired in place its content calls for {want_[1].__name__}, dataset.ems gives '
+                       f'{second_[1].__name__ if second_[0] == "ok" else second_[1]} (the first, refused attempt: {first_})', rcase)
     # ---------------- (A3) the accessor and the detection function agree, also on datasets derived from one that was opened
     # from a file and already given a convention (xarray keeps encoding['source'] on the derived datasets)
     import os
